@@ -1,5 +1,7 @@
 package websocket
 
+import "net/http"
+
 // C02.frame: one writeFrame call with symbolic arguments on a fresh Conn of either role: the bytes on the
 // transport decode (independent decoder) to exactly one frame carrying those arguments, masked iff client
 // with the key crypto/rand produced for this frame.
@@ -182,15 +184,29 @@ func verifC01_flate_e2e() {
 	client := vParam("client", 1) == 1
 	mode := vParam("deflate", 1)
 	vInstallRand()
+	sndOpts, rcvOpts := vCopts(mode), vCopts(mode)
+	if vParam("negotiate", 0) == 1 {
+		// the options of the two ends come out of the library's own handshake code for a pair of CompressionModes
+		copts, sopts := vNegotiate(CompressionMode(vParam("cm", 1)), CompressionMode(vParam("sm", 2)))
+		sndOpts, rcvOpts = sopts, copts
+		if client {
+			sndOpts, rcvOpts = copts, sopts
+		}
+		vReach("C01.flate.negotiated")
+	}
 	ts := vNewTransport(nil)
 	ts.endMode = vEndBlock
-	snd := vNewConn(ts, client, vCopts(mode), 16, 64)
+	snd := vNewConn(ts, client, sndOpts, 16, 64)
 	snd.flateThreshold = vParam("threshold", 8)
 	nMsgs := vParam("msgs", 3)
 	var sent []vSent
 	for i := 0; i < nMsgs; i++ {
-		doc := []byte(vCorpus[vChoose("doc", len(vCorpus))])
-		if vChoose("short", 3) == 0 {
+		nDocs, nShort, nCuts := len(vCorpus), 3, 4
+		if vParam("lean", 0) == 1 {
+			nDocs, nShort, nCuts = 2, 2, 2
+		}
+		doc := []byte(vCorpus[vChoose("doc", nDocs)])
+		if vChoose("short", nShort) == 0 {
 			doc = doc[:4] // below the threshold: goes out uncompressed between compressed messages
 		}
 		typ := MessageType(1 + i%2)
@@ -200,7 +216,7 @@ func verifC01_flate_e2e() {
 			w, err := snd.Writer(vBG, typ)
 			vAssert(err == nil, "C01.flate.writer-noerr")
 			// first chunk: everything, half, a few bytes (below the threshold: the decision must not be revisited), nothing
-			cut := []int{len(doc), len(doc) / 2, 3, 0}[vChoose("cutAt", 4)]
+			cut := []int{len(doc), len(doc) / 2, 3, 0}[vChoose("cutAt", nCuts)]
 			if cut > len(doc) {
 				cut = len(doc)
 			}
@@ -235,7 +251,7 @@ func verifC01_flate_e2e() {
 	}
 	tr := vNewTransport(ts.out)
 	tr.step = vParam("step", 0)
-	rcv := vNewConn(tr, !client, vCopts(mode), 64, 64)
+	rcv := vNewConn(tr, !client, rcvOpts, 64, 64)
 	g := vReadLoop(rcv, vParam("buf", 7), len(sent)+1)
 	okm := len(g.msgs) == len(sent)
 	if okm {
@@ -248,4 +264,26 @@ func verifC01_flate_e2e() {
 	snd.CloseNow()
 	rcv.CloseNow()
 	vObserve("flate-e2e", len(g.msgs), len(ts.out))
+}
+
+// vNegotiate runs the library's handshake code for permessage-deflate between a client dialing with mode cm and a server
+// accepting with mode sm (offer rendering, offer parsing and selection, response rendering, response verification) and
+// returns the options each end will build its connection with (nil: no compression).
+func vNegotiate(cm, sm CompressionMode) (copts, sopts *compressionOptions) {
+	var offer *compressionOptions
+	req := http.Header{}
+	if cm != CompressionDisabled {
+		offer = cm.opts()
+		req.Set("Sec-WebSocket-Extensions", offer.String())
+	}
+	sopts, ok := selectDeflate(websocketExtensions(req), sm)
+	resp := http.Header{}
+	if ok {
+		resp.Set("Sec-WebSocket-Extensions", sopts.String())
+	} else {
+		sopts = nil
+	}
+	copts, err := verifyServerExtensions(offer, resp)
+	vAssert(err == nil, "C01.flate.handshake-succeeds")
+	return copts, sopts
 }
